@@ -18,7 +18,8 @@ def _solve(args):
     from harness.drivers import dispatch
 
     cfg, seed = args
-    o = dispatch.solve(cfg, seed=seed)
+    # every eighth run with two integration workers (the outcome classes do not depend on the number of workers)
+    o = dispatch.solve(cfg, seed=seed, cores=2 if seed % 8 == 0 else 1)
     o.pop("arrays", None)
     return o
 
@@ -77,8 +78,11 @@ def run(chk):
         raise MachineryError(f"Dispatch table inconsistent: {r.counterexample()[:2000]}")
     cfgs = plan(chk)
     jobs = [(c, chk.rng.randrange(1000)) for c in cfgs]
-    with mp.get_context("fork").Pool(16) as pool:
-        outs = pool.map(_solve, jobs, chunksize=2)
+    from concurrent.futures import ProcessPoolExecutor
+
+    # executor workers are not daemonic, so the solver can start its own pools
+    with ProcessPoolExecutor(16, mp_context=mp.get_context("fork")) as pool:
+        outs = list(pool.map(_solve, jobs, chunksize=2))
     recs = []
     keys = set()
     for o in outs:
